@@ -101,10 +101,15 @@ class SimIOError(Exception):
         self.nth = nth
 
 
+class SimTypeFault(SimIOError, TypeError):
+    """The injected fault in the guise of a TypeError (what a user callable typically raises on a bad value)."""
+
+
 class FaultCtl:
     """Counts crossings of fault sites inside the current op and fires armed ones."""
 
-    SITES = ("leaf_iter", "udf", "udf_stop", "db_before", "db_mid", "db_after", "hook_before", "hook_after", "stream_row")
+    SITES = ("leaf_iter", "udf", "udf_stop", "udf_type", "db_before", "db_mid", "db_after", "hook_before", "hook_after",
+             "stream_row")
 
     def __init__(self):
         self.counts = Counter()
@@ -432,6 +437,10 @@ class World:
             except SimIOError:
                 # a user callable that lets StopIteration escape (e.g. a bare next() on a helper iterator)
                 raise StopIteration("injected StopIteration from a column function") from None
+            try:
+                self.fault.cross("udf_type")
+            except SimIOError as e:
+                raise SimTypeFault(e.site, e.nth) from None
             return f(x)
 
         return udf
